@@ -83,6 +83,58 @@ def known_post_compact_reuse(ctx):
         st.close()
 
 
+def check_C08(ctx):
+    tags = {'ReadyFlag', 'BlockedFlag', 'ClaimOrder', 'Reply', 'Exit', 'Events'}
+    n, steps = sizes(ctx, (48, 30), (500, 40))
+    prof = {'weights': {'new': 28, 'set': 30, 'claim': 20, 'seq': 22, 'prune': 6, 'plan': 4, 'seqrm': 3},
+            'states': ['done', 'canceled', 'todo', 'todo', 'doing', 'blocked', 'error']}
+    driver.history_check(ctx, tags, n, steps, profile=prof)
+    driver.log_check(ctx, {'ReadyFlag', 'BlockedFlag', 'ClaimOrder', 'ReplayErr', 'LiveSet'}, *sizes(ctx, (250, 30), (4000, 36)),
+                     monitor=mon_ready_logs, nids=7)
+    list_ready_cli(ctx)
+
+
+def mon_ready_logs(log, snap, comp):
+    if 'replay_error' in snap:
+        return []
+    tr = {'after': snap, 'req': {'k': 'none'}, 'before': snap}
+    return monitors.mon_C08(tr)
+
+
+def list_ready_cli(ctx):
+    """`list --ready --json` and `claim` on real stores vs the manual's sentence recomputed independently."""
+    rpc = Rpc()
+    bad = []
+    n = 0
+    try:
+        for k in range(8 if ctx.quick() else 60):
+            h = history.History(rpc, random.Random(ctx.seed * 31 + k))
+            h.profile = {'weights': {'new': 30, 'set': 30, 'seq': 25, 'claim': 5, 'prune': 4},
+                         'states': ['done', 'canceled', 'todo', 'todo', 'doing', 'blocked']}
+            for _ in range(30):
+                h.do(h.gen_request())
+            rd = monitors.ready_by_manual(h.snap)
+            exp = sorted([i for i, v in rd.items() if v and not monitors.tasks_by_id(h.snap)[i]['is_epic']])
+            rc, out, _ = h.store.run(['--json', 'list', '--ready'])
+            got = sorted(t['id'] for t in json.loads(out)) if rc == 0 else None
+            n += 1
+            if got != exp:
+                bad.append(('list_ready', got, exp, [t['args'] for t in h.trace]))
+            for e in [t['id'] for t in h.snap['tasks'] if t['is_epic']][:2]:
+                rc, out, _ = h.store.run(['--json', 'list', '--ready', '--epic', e])
+                got = sorted(t['id'] for t in json.loads(out)) if rc == 0 else None
+                expe = sorted(i for i in exp if monitors.tasks_by_id(h.snap)[i]['epic'] == e)
+                n += 1
+                if got != expe:
+                    bad.append(('list_ready_epic', e, got, expe))
+            h.close()
+        ctx.cov['list_ready_cli_cases'] = n
+        for b in bad[:3]:
+            ctx.violations.append(('monitor', 'list --ready differs from the manual: %s' % (b[:3],), {'kind': 'cli', 'case': b}))
+    finally:
+        rpc.close()
+
+
 def check_C10(ctx):
     tags = {'Exit', 'Events'}
     n, steps = sizes(ctx, (48, 30), (600, 40))
@@ -118,6 +170,244 @@ def plan_malformed(ctx):
         ctx.cov['plan_malformed_docs'] = len(docs)
         for d in bad:
             ctx.violations.append(('monitor', 'invalid plan payload accepted or wrote to the log', {'kind': 'plan-doc', 'doc': d}))
+    finally:
+        st.close()
+
+
+def dir_digest(d):
+    import hashlib
+    h = hashlib.sha256()
+    for root, dirs, files in sorted(os.walk(d)):
+        for f in sorted(files):
+            if f == 'lock':
+                continue
+            p = os.path.join(root, f)
+            h.update(p.encode())
+            with open(p, 'rb') as fh:
+                h.update(fh.read())
+    return h.hexdigest()
+
+
+def check_C12(ctx):
+    """Arbitrary bytes as the log: model of readEvents vs Go; byte-identical output; reads are pure;
+    history only grows (Events tag on histories)."""
+    import synth, common, re as _re
+    driver.history_check(ctx, {'Events'}, *sizes(ctx, (24, 20), (300, 30)))
+    rng = random.Random(ctx.seed * 17 + 5)
+    rpc = Rpc()
+    wd = mkscratch('ergo-bytes-')
+    cases, meta = [], []
+    nondet, impure, slow, noline = [], [], [], []
+    try:
+        # seed material: a real log produced by the CLI
+        h = history.History(rpc, random.Random(ctx.seed))
+        for _ in range(25):
+            h.do(h.gen_request())
+        base = h.store.read_log()
+        h.close()
+        lines = base.split(b'\n')
+        variants = []
+        nvar = 150 if ctx.quick() else 2500
+        for k in range(nvar):
+            kind = rng.choice(['trunc', 'trunc', 'flip', 'conflict', 'blank', 'crlf', 'unknown', 'wrongtype', 'reorder', 'dupe',
+                               'nonl_valid', 'garbage_mid', 'asis'])
+            b = bytearray(base)
+            if kind == 'trunc' and len(b) > 2:
+                b = b[:rng.randrange(1, len(b))]
+            elif kind == 'flip' and len(b) > 2:
+                for _ in range(rng.choice([1, 1, 3])):
+                    i = rng.randrange(len(b))
+                    b[i] ^= 1 << rng.randrange(8)
+            elif kind == 'conflict':
+                ls = list(lines)
+                i = rng.randrange(len(ls))
+                ls[i:i] = [b'<<<<<<< HEAD', ls[i], b'=======', ls[i], b'>>>>>>> other']
+                b = bytearray(b'\n'.join(ls))
+            elif kind == 'blank':
+                ls = list(lines)
+                ls.insert(rng.randrange(len(ls)), rng.choice([b'', b'   ', b'\t']))
+                b = bytearray(b'\n'.join(ls))
+            elif kind == 'crlf':
+                b = bytearray(base.replace(b'\n', b'\r\n'))
+            elif kind == 'unknown':
+                ls = list(lines)
+                ls.insert(rng.randrange(len(ls)), b'{"type":"future_event","ts":"2026-01-01T00:00:00Z","data":{"x":1}}')
+                b = bytearray(b'\n'.join(ls))
+            elif kind == 'wrongtype':
+                ls = list(lines)
+                ls.insert(rng.randrange(len(ls)), rng.choice([b'{"type":"state","ts":"x","data":{"id":5}}', b'{"type":7}', b'[1,2]',
+                                                              b'{"type":"claim","ts":"","data":"str"}', b'null', b'17']))
+                b = bytearray(b'\n'.join(ls))
+            elif kind == 'reorder':
+                ls = [l for l in lines if l]
+                rng.shuffle(ls)
+                b = bytearray(b'\n'.join(ls) + b'\n')
+            elif kind == 'dupe':
+                ls = [l for l in lines if l]
+                ls.insert(rng.randrange(len(ls) + 1), rng.choice(ls))
+                b = bytearray(b'\n'.join(ls) + b'\n')
+            elif kind == 'nonl_valid':
+                b = bytearray(base.rstrip(b'\n'))
+            elif kind == 'garbage_mid':
+                ls = list(lines)
+                ls.insert(rng.randrange(len(ls)), b'this is not json')
+                b = bytearray(b'\n'.join(ls))
+            variants.append((kind, bytes(b)))
+        if not ctx.quick():
+            variants.append(('huge', base + b'{"type":"title","ts":"","data":{"id":"X","title":"' + b'a' * (11 * 1024 * 1024) + b'"}}\n' + base))
+            variants.append(('huge_tail', base + b'x' * (11 * 1024 * 1024)))
+        variants.append(('huge_small', b'{"type":"zz","ts":"","data":{}}\n' + b'y' * (10 * 1024 * 1024 + 5) + b'\n'))
+        common.INTERN.__init__()
+        st = Store()
+        kinds = {}
+        for kind, data in variants:
+            with open(st.log, 'wb') as f:
+                f.write(data)
+            resp = rpc.call(op='lines', dir=st.ergodir)
+            if 'ok' not in resp:
+                continue
+            o = resp['ok']
+            cls = o['lines']
+            # events per good line, in order, come from Go's own decoding
+            if 'events' in o:
+                obs = '(FOk %s)' % cq_events(o['events'])
+            else:
+                m = _re.search(r':(\d+): (invalid JSON|git conflict markers)', o['read_err'])
+                if m:
+                    obs = '(FBadLine %d)' % int(m.group(1))
+                elif 'too long' in o['read_err']:
+                    obs = 'FTooLong'
+                else:
+                    obs = 'FOtherErr'
+            # the typed event of each good line: decode that line alone through the RPC would cost a call per
+            # line; instead use EOther placeholders when the read failed (the events list is then not compared)
+            if 'events' in o:
+                evs = list(o['events'])
+                terms = []
+                for c in cls:
+                    if c == 'good':
+                        terms.append('(LGood %s)' % cq_event(evs.pop(0)) if evs else 'LBad')
+                    else:
+                        terms.append({'bad': 'LBad', 'blank': 'LBlank', 'huge': 'LHuge'}[c])
+            else:
+                terms = [{'good': '(LGood EOther)', 'bad': 'LBad', 'blank': 'LBlank', 'huge': 'LHuge'}[c] for c in cls]
+            # a tolerated torn tail: Go dropped the bad last line, so the events list has one fewer entry: handled by model
+            cases.append('(FileCase %s %s %s)' % (cq_list(terms), cq_bool(o['ends_nl']), obs))
+            meta.append((kind, len(data)))
+            kinds[kind] = kinds.get(kind, 0) + 1
+            # CLI level: determinism, purity, promptness, error message
+            if rng.random() < (0.25 if ctx.quick() else 0.1) or kind.startswith('huge'):
+                before = dir_digest(st.ergodir)
+                import time as _t
+                t0 = _t.time()
+                outs = [st.run(['--json', 'list', '--all'], timeout=60) for _ in range(2)]
+                dt = _t.time() - t0
+                if outs[0] != outs[1]:
+                    nondet.append(kind)
+                if dir_digest(st.ergodir) != before:
+                    impure.append(kind)
+                if dt > 20:
+                    slow.append((kind, dt))
+                rc, out, err = outs[0]
+                if rc != 0 and 'read_err' in o and 'invalid JSON' in o['read_err'] and not _re.search(rb'plans\.jsonl:\d+:', err):
+                    noline.append(kind)
+                if rc not in (0, 1):
+                    ctx.violations.append(('monitor', 'command crashed on file content kind=%s rc=%d' % (kind, rc),
+                                           {'kind': 'bytes', 'variant': kind, 'stderr': err.decode('utf-8', 'replace')[-500:]}))
+        st.close()
+        # evaluate in Coq
+        mism, errors = [], []
+        shard = 60
+        procs = []
+        for k in range(0, len(cases), shard):
+            part = cases[k:k + shard]
+            name = os.path.join(wd, 'files_%d.v' % (k // shard))
+            with open(name, 'w') as f:
+                f.write(CASES_HEADER + 'From Ergo Require Import Storage.\n')
+                f.write(common.INTERN.defs_for(' '.join(part)))
+                f.write('Definition cases : list filecase := [\n' + ';\n'.join(part) + '\n].\n')
+                f.write('Definition M := Eval vm_compute in run_filecases cases.\nPrint M.\n')
+            procs.append((k, name, subprocess.Popen(['coqc', '-Q', os.path.join(COQ, 'theories'), 'Ergo', '-Q', os.path.join(COQ, 'run'),
+                                                     'ErgoRun', '-w', '-all', name], cwd=wd, stdout=subprocess.PIPE, stderr=subprocess.STDOUT)))
+        for k, name, p in procs:
+            out, _ = p.communicate()
+            text = out.decode('utf-8', 'replace')
+            flat = ' '.join(text.split())
+            if p.returncode != 0:
+                errors.append(text[-800:])
+            elif not _re.search(r'M\s*=\s*\[\s*\]', flat):
+                for m in _re.finditer(r'\((\d+),\s*"([A-Za-z]+)"\)', flat):
+                    mism.append((k + int(m.group(1)), m.group(2)))
+        ctx.cov['byte_variants'] = len(cases)
+        ctx.cov['byte_variant_kinds'] = kinds
+        ctx.samples.append({'byte_variant': meta[0] if meta else None})
+        for e in errors:
+            ctx.violations.append(('broken', 'file-case evaluation failed: ' + e[-300:], {'coq_error': e}))
+        seen = set()
+        for (i, tg) in mism:
+            if tg not in seen:
+                seen.add(tg)
+                ctx.violations.append(('mismatch', 'readEvents model disagrees with Go on %s (variant %s)' % (tg, meta[i][0]),
+                                       {'kind': 'bytes', 'tag': tg, 'variant': meta[i], 'no_failing_input': True}))
+        for k in nondet[:1]:
+            ctx.violations.append(('monitor', 'same log, different output (variant %s)' % k, {'kind': 'bytes', 'variant': k}))
+        for k in impure[:1]:
+            ctx.violations.append(('monitor', 'read-only command changed the store (variant %s)' % k, {'kind': 'bytes', 'variant': k}))
+        for k in slow[:1]:
+            ctx.violations.append(('monitor', 'command did not terminate promptly: %s' % (k,), {'kind': 'bytes', 'variant': k}))
+        for k in noline[:1]:
+            ctx.violations.append(('monitor', 'invalid-JSON error does not name file and line (variant %s)' % k, {'kind': 'bytes', 'variant': k}))
+    finally:
+        rpc.close()
+        shutil.rmtree(wd, ignore_errors=True)
+    reads_pure(ctx)
+    epics_order_deterministic(ctx)
+
+
+def reads_pure(ctx):
+    """list / show / where / prune (dry) / quickstart never change the log; a missing lock is recreated empty."""
+    rpc = Rpc()
+    try:
+        h = history.History(rpc, random.Random(ctx.seed + 99))
+        for _ in range(20):
+            h.do(h.gen_request())
+        st = h.store
+        ids = [t['id'] for t in h.snap['tasks']][:3]
+        before = dir_digest(st.ergodir)
+        cmds = [['list'], ['list', '--all'], ['list', '--ready'], ['list', '--epics'], ['--json', 'list'], ['where'], ['--json', 'where'],
+                ['prune'], ['--json', 'prune'], ['quickstart']] + [['show', i] for i in ids] + [['--json', 'show', i] for i in ids]
+        n = 0
+        for c in cmds:
+            st.run(c)
+            n += 1
+            if dir_digest(st.ergodir) != before:
+                ctx.violations.append(('monitor', 'read-only command %s changed the store' % c, {'kind': 'cli', 'args': c}))
+                break
+        os.remove(os.path.join(st.ergodir, 'lock'))
+        st.run(['prune'])
+        lock = os.path.join(st.ergodir, 'lock')
+        if not (os.path.exists(lock) and os.path.getsize(lock) == 0) or dir_digest(st.ergodir) != before:
+            ctx.violations.append(('monitor', 'missing lock not recreated empty / log changed', {'kind': 'cli'}))
+        ctx.cov['read_only_commands_checked'] = n
+        h.close()
+    finally:
+        rpc.close()
+
+
+def epics_order_deterministic(ctx):
+    """list --epics with equal creation stamps: same output on every run (map iteration must not leak)."""
+    import synth
+    st = Store()
+    try:
+        evs = [{'t': 'new_epic', 'id': 'E%05d' % k, 'uuid': 'u%d' % k, 'epic': '', 'state': 'todo', 'title': 'e%d' % k, 'body': '',
+                'at': [synth.EPOCH0, 0]} for k in range(12)]
+        synth.write_log(st.log, evs)
+        outs = {st.run(['--json', 'list', '--epics'])[1] for _ in range(6)}
+        outs2 = {st.run(['list', '--epics'])[1] for _ in range(4)}
+        ctx.cov['epics_order_runs'] = 10
+        if len(outs) != 1 or len(outs2) != 1:
+            ctx.violations.append(('monitor', 'list --epics output differs between runs on the same log',
+                                   {'kind': 'log', 'log': [synth.render_event(e) for e in evs]}))
     finally:
         st.close()
 
